@@ -5,12 +5,15 @@ package props
 // (the `Mat` encoding of lean/Goat/Drive/C03.lean).
 
 import (
+	"bytes"
 	"crypto"
 	"crypto/ecdh"
 	"crypto/ecdsa"
 	"crypto/ed25519"
 	"crypto/elliptic"
 	"crypto/rsa"
+	"encoding/base64"
+	"encoding/json"
 	"fmt"
 	"sync"
 
@@ -55,6 +58,7 @@ type c03Kind struct {
 	Family  string // independent classification for the RFC table: oct|rsa|ec|ed25519|ed448|x25519|x448|ecdh|empty|custom
 	Crv     string
 	Bits    int  // oct: length in bytes; rsa: modulus bits
+	JSONSpell bool // oct: the key object is obtained by jwk.ParseKey from a JWK whose "k" text contains line feeds
 	HasPriv bool // private part present (of the family's own type)
 }
 
@@ -114,7 +118,19 @@ func (kd *c03Kind) goKey(m c03Meta) c03GoKey {
 // exactly as jwk.NewPrivateKey does: priv.Public()).
 func (kd *c03Kind) jwkKey(m c03Meta) *jwk.Key {
 	k := &jwk.Key{}
-	if kd.Priv != nil {
+	if secret, ok := kd.Priv.([]byte); ok && kd.JSONSpell {
+		var text []byte
+		for _, ch := range []byte(base64.RawURLEncoding.EncodeToString(secret)) {
+			text = append(text, ch, '\n')
+		}
+		text = append(text, bytes.Repeat([]byte{'\n'}, 96)...)
+		kt, _ := json.Marshal(string(text))
+		if pk, err := jwk.ParseKey([]byte(`{"kty":"oct","k":` + string(kt) + `}`)); err == nil {
+			k = pk
+		} else {
+			k.SetPrivateKey(kd.Priv)
+		}
+	} else if kd.Priv != nil {
 		k.SetPrivateKey(kd.Priv)
 	} else if kd.Pub != nil {
 		k.SetPublicKey(kd.Pub)
@@ -182,7 +198,14 @@ func c03Keys(seed uint64) *c03Universe {
 				Family: "oct", Bits: n, HasPriv: true})
 		}
 		rsaKeys := map[int]*rsa.PrivateKey{}
-		for _, bits := range []int{1024, 2048} {
+		for _, n := range []int{1, 5, 31, 47, 63} {
+			// the same kind of secret arriving as JWK JSON whose "k" text is broken by line feeds (Go's base64
+			// decoder skips CR / LF): the TEXT is long, the secret is n octets — size rules must see n
+			b := r.Bytes(n)
+			add(&c03Kind{Name: fmt.Sprintf("oct%d-nl", n), Priv: b, MPriv: c03Mat{Tag: "bytes", N: n}, MPub: c03Nil,
+				Family: "oct", Bits: n, HasPriv: true, JSONSpell: true})
+		}
+		for _, bits := range []int{1024, 2047, 2048} {
 			key, err := rsa.GenerateKey(r, bits)
 			if err != nil {
 				panic(err)
